@@ -18,11 +18,11 @@ import (
 
 type gramResult struct {
 	ok       bool
-	dontcare string        // non-empty: neither POSIX nor the property fixes the verdict
-	cmd      ast.Command   // nil for an empty line
-	comments []string      // comment texts, in order
-	consumed int           // symbols consumed, including the terminating newline
-	errAt    int           // index of the symbol at which the sentence stops being a prefix of the grammar
+	dontcare string      // non-empty: neither POSIX nor the property fixes the verdict
+	cmd      ast.Command // nil for an empty line
+	comments []string    // comment texts, in order
+	consumed int         // symbols consumed, including the terminating newline
+	errAt    int         // index of the symbol at which the sentence stops being a prefix of the grammar
 	errMsg   string
 	heredocs []*ast.Redir // in operator order
 	// sepOK[i]: at the boundary before symbol i the grammar is at a point where
